@@ -284,6 +284,7 @@ def derivative_search(ctx, budget, honesty):
         multistep_complex_family(ctx, max(80, budget // 5))
         elementary_table_family(ctx, None if ctx.thorough else 2)
         scale_invariance_family(ctx, 400 if ctx.thorough else 60)
+        singular_step_family(ctx)
     ctx.notes.append('%d programs skipped: not finite at the complex points of the stencil' % skipped_nonfinite[0])
     ctx.notes.append('worst ratio / envelope per (method, n) on this run: %s'
                      % {('%s,%d' % k): float('%.2g' % v) for k, v in sorted(worst.items())})
@@ -350,6 +351,38 @@ def elementary_table_family(ctx, per_config):
                                       'relative error of (%s, n=%d, order=%d)' % (m, n, order), program=name, x=x, method=m, n=n, order=order,
                                       got=v, exact=exact(n), relative_error=e, envelope=env, stepped_through_n=loop)
     ctx.notes.append('elementary table family: worst relative error / envelope = %.3g' % worst)
+
+
+def singular_step_family(ctx):
+    """Round points next to a singularity: with the default steps 2, 1, 0.5, .. (times the nominal step 1) a dyadic x <= 1 puts one step
+    exactly on the singularity of log / arctanh / log1p, where f is -inf or +inf (not NaN).  That sample must be discarded like any
+    other non-finite one: the unchanged tree is accurate to 3e-13 (n=1), 9e-11 (n=2 central), 1.3e-7 (n=2 one-sided) here; asserted with a factor 80+."""
+    import numdifftools as nd
+    cases = [('log', np.log, [1.0, 0.5, 0.25, 2.0], lambda x: 1 / x, lambda x: -1 / x ** 2),
+             ('arctanh', np.arctanh, [0.5, -0.5, 0.75], lambda x: 1 / (1 - x * x), lambda x: 2 * x / (1 - x * x) ** 2),
+             ('log1p', np.log1p, [-0.5, -0.75, 1.0], lambda x: 1 / (1 + x), lambda x: -1 / (1 + x) ** 2),
+             ('log(x)/x', lambda t: np.log(t) / t, [1.0, 0.5], lambda x: (1 - np.log(x)) / x ** 2, lambda x: (2 * np.log(x) - 3) / x ** 3)]
+    worst = 0.0
+    for name, f, pts, d1, d2 in cases:
+        for x in pts:
+            for m in ('central', 'forward', 'backward'):
+                for n in (1, 2):
+                    ctx.tried(('singular-step', name, x, m, n))
+                    try:
+                        with warnings.catch_warnings():
+                            warnings.simplefilter('ignore')
+                            v, info = nd.Derivative(f, n=n, method=m, full_output=True)(x)
+                    except Exception as ex:
+                        ctx.violation('Derivative raised %r' % ex, program=name, x=x, method=m, n=n)
+                        continue
+                    exact = float(d1(x) if n == 1 else d2(x))
+                    e = abs(float(v) - exact) / abs(exact)
+                    worst = max(worst, e)
+                    if not e <= (1e-9 if n == 1 else 1e-8 if m == 'central' else 1e-5):     # measured: 3e-13 / 9e-11 / 1.3e-7
+                        ctx.violation('Derivative at a round point whose default steps hit the singularity of f exactly (f = +-inf there) is wrong',
+                                      program=name, x=x, method=m, n=n, got=float(v), exact=exact, relative_error=e,
+                                      error_estimate=float(info.error_estimate))
+    ctx.notes.append('round points next to a singularity: worst relative error %.3g' % worst)
 
 
 def scale_invariance_family(ctx, budget):
